@@ -620,9 +620,19 @@ fn replay_one(beh: &Value, dir: &str, deep_every: bool, twin: bool) -> Value {
 				let path = path_to(&w.tree, b);
 				let hs: Vec<_> = path[path.len() - cnt..].iter().map(|x| w.blocks[x].header.clone()).collect();
 				let r = std::panic::catch_unwind(std::panic::AssertUnwindSafe(|| {
-					let sync_head = c.header_head().unwrap();
+					// the caller's sync head: any header it knows (default: the header head)
+					let sync_head = match s["sh"].as_u64() {
+						Some(sh) if s["ret"].as_str().is_some() => grin_chain::Tip::from_header(&w.blocks[&sh].header),
+						_ => c.header_head().unwrap(),
+					};
 					c.sync_block_headers(&hs, sync_head, Options::SKIP_POW)
 				}));
+				if let (Ok(Ok(ret)), Some(exp)) = (&r, s["ret"].as_str()) {
+					let obs = if ret.is_some() { "some" } else { "none" };
+					if exp != "-" && exp != obs {
+						mism.push(json!({"step": i, "what": "sync_head_returned", "b": b, "sh": s["sh"], "expected": exp, "observed": obs}));
+					}
+				}
 				match r {
 					Ok(Ok(_)) => "ok".to_string(),
 					Ok(Err(_)) => "reject".to_string(),
